@@ -151,6 +151,13 @@ class StatelessClassRule(BaseLintRule):  # thailint: ignore[srp,dry]
         Returns:
             StatelessClassConfig instance
         """
+        # The orchestrator passes the loaded configuration as context.metadata
+        metadata = getattr(context, "metadata", None)
+        if isinstance(metadata, dict):
+            for key in ("stateless_class", "stateless-class"):
+                if isinstance(metadata.get(key), dict):
+                    return StatelessClassConfig.from_dict(metadata[key])
+
         if not hasattr(context, "config") or context.config is None:
             return StatelessClassConfig()
 
